@@ -170,6 +170,15 @@ def deep_case(args):
             vs = expressions.get_all_variables(acc)
             if sorted(v.name for v in vs) != sorted(vals):
                 res['bad'] = 'variable discovery misses variables on a deep tree'
+            # a function / negation applied on top of the whole accumulation is still the same set of variables
+            # (objectives like sqrt(sum of squares) or -(sum) are written this way)
+            if res['bad'] is None and op in '+*':
+                for wname, wrapped in (('neg', -acc), ('sqrt', optyx.sqrt(acc)), ('tanh', optyx.tanh(acc * 1e-3))):
+                    ws = expressions.get_all_variables(wrapped)
+                    pv = optyx.Problem().minimize(wrapped).variables
+                    if sorted(v.name for v in ws) != sorted(vals) or len(pv) != n:
+                        res['bad'] = 'variable discovery misses variables when %s() is applied to a deep accumulation (%d / %d of %d found)' % (wname, len(ws), len(pv), n)
+                        break
             d = analysis.compute_degree(acc)
             true_deg = (1 if op in '+-' else (n if op == '*' else None)) if base == 'var' else None
             if res['bad'] is None and d is not None and (true_deg is None or d < true_deg):
